@@ -19,9 +19,11 @@ RULE = ("port trees of depth 1..4 built from one table per level of the struct f
 TRUSTED = ["harness/h_C09.cpp: the struct family, the run-time pairing of names/metadata with macro-generated callbacks, "
            "the resolution of table addresses to objects, the walker callback, the dispatch of every reported address",
            "tools/props/ports_common.py: the Spec-side expansion of '#N'"]
-ASSUMPTIONS = ["sub-tree names: every '#N' is followed by '/', the name ends in '/'; rRecur/rRecurp/rRecurs names have one "
-               "component (their callbacks strip one); no ':' in front of a '#'; 1 <= N",
-               "'enabled by' names a toggle of the same table (not a port inside the sub-tree it disables)",
+ASSUMPTIONS = ["sub-tree names end in '/'; rRecur/rRecurp/rRecurs names have one component (their callbacks strip one); "
+               "no ':' in front of a '#'; 1 <= N",
+               "'enabled by' names a toggle of the same table, or (rRecur / rRecurp ports) a toggle inside the sub-tree "
+               "it disables ('name/toggle'); for enumerated sub-trees the latter is not generated (the source's own "
+               "TODO: the address of the enabling port keeps '#N')",
                "the buffer is large enough (walk_ports' own asserts are off in the pinned build type)",
                "dispatch of a reported address is demanded when no concrete sibling name is a prefix of another and "
                "literal characters are not digits (as in C18_lookup)"]
@@ -70,9 +72,16 @@ def gen_level_tables(rng, depth, dirty):
                 kinds = [k for k in kinds if k != 'R'] + ['M']
             if not kinds:
                 kinds = [rng.choice("RPAM")]
+            child_toggles = [q for q in tables[lv + 1] if q['kind'] in "TU"]
             for k in kinds:
                 if k in "RP":
                     segs = [lit(fresh(strict=True) + "/")]
+                    if child_toggles and rng.random() < 0.35:
+                        # 'enabled by' names a port INSIDE the sub-tree it disables: "name/toggle"
+                        tg = rng.choice(child_toggles)['name'].split(b":")[0]
+                        meta = pc.render_meta([(b"enabled by", segs[0][1] + tg), (b"doc", b"d")])
+                        t.append(pc.mk_port(segs, b"", meta, tables[lv + 1], kind=k))
+                        continue
                 elif k == 'A':
                     segs = [lit(fresh(strict=True)), ('E', rng.choice([1, 2, 2, 3, 3, 3, 11, 12] if lv == 0 else [1, 2, 3])), lit("/")]
                 else:
@@ -206,13 +215,24 @@ def spec_walk(t, rt, off, nulls, addr, ids=(), key=()):
         else:
             for a, idx in expand_idx(p['segs']):
                 sa = addr + a
+                ckey = key + (child_key(p, idx),)
                 if rt:
                     if p['kind'] == 'P' and key in nulls:
                         continue
                     e = enabled_by(p)
-                    if e is not None and (key, toggle_kind(t, e)) in off:
+                    if e is not None and b"/" in e:
+                        # the enabling port lies inside the sub-tree: the CHILD object's toggle decides;
+                        # a disabled sub-tree still reports that port (it must always be traversed)
+                        tg = e.split(b"/", 1)[1]
+                        if (ckey, toggle_kind(p['sub'], tg)) in off:
+                            for j, q in enumerate(p['sub']):
+                                if q['name'] == tg or q['name'].startswith(tg + b":"):
+                                    out.append((ids + (i, j), sa + tg))
+                                    break
+                            continue
+                    elif e is not None and (key, toggle_kind(t, e)) in off:
                         continue
-                out += spec_walk(p['sub'], rt, off, nulls, sa, ids + (i,), key + (child_key(p, idx),))
+                out += spec_walk(p['sub'], rt, off, nulls, sa, ids + (i,), ckey)
     return out
 
 def bump(dist, k, n=1):
@@ -259,6 +279,13 @@ def gen(rng, tier, dist):
                         nulladdrs += [a + x for x in pc.expand(p['segs'])]
                     e = enabled_by(p)
                     if e is None:
+                        continue
+                    if p['sub'] is not None and b"/" in e:
+                        tg = e.split(b"/", 1)[1]
+                        for x, idx in expand_idx(p['segs']):
+                            if (k + (child_key(p, idx),), toggle_kind(p['sub'], tg)) in off:
+                                dis.append(a + x)
+                        bump(dist, "enabled-by-inside-subtree")
                         continue
                     if (k, toggle_kind(tb, e)) in off:
                         if p['sub'] is not None:
